@@ -45,7 +45,7 @@ Op == nops < MaxOps /\ nops' = nops + 1
 (* construct an instance of class c with value v (valid by construction) *)
 Construct(c, v) ==
   /\ Op /\ Len(heap) < MaxObjs
-  /\ (c = "miss" => v \in {0, 1}) /\ (c # "miss" => v \in {1, 2})
+  /\ (c = "miss" => v \in {0, 1}) /\ (c \notin {"miss", "cont"} => v \in {1, 2})      \* "cont" may be built from EMPTY containers (0)
   /\ heap' = Append(heap, Obj(c, v, IF c \in {"cont", "deep"} THEN v ELSE 0))
   /\ obs' = O(<<"new", Len(heap')>>)
 
@@ -67,7 +67,7 @@ MutateInput(i) ==
    "invalid_eq" is an invalid replacement that compares equal to the current value (1.0 for the int 1, a tuple of floats
    for a tuple of ints): re-validated and refused like any other; for "flag" the valid replacement compares equal to the
    current value (True for 1) and still has to replace it. *)
-HasInvalidEq(o) == o.cls \in {"flat", "flat2", "gen", "cont", "deep"} \/ (o.cls = "miss" /\ o.val # 0)
+HasInvalidEq(o) == o.cls \in {"flat", "flat2", "gen", "deep"} \/ (o.cls \in {"miss", "cont"} /\ o.val # 0)   \* (an empty container has no such look-alike)
 Updated(i, how) ==
   /\ Op /\ i \in DOMAIN heap
   /\ (how = "invalid_eq" => HasInvalidEq(heap[i]))
